@@ -15,7 +15,7 @@ RULE = ('(a) ALL type hints (lo, hi) with -9 <= lo <= hi <= 9 (thorough: -17..17
         'sign class, a Boolean and a rigid constant; 20-formula menu: '
         'unprime(prime(u)) = u, table(prime(u)) = renamed table, '
         'replace_with_primed/unprimed for EVERY subset of variables (for actions too, where the copy substituted in is already read, and unprime of proper actions), support '
-        'classification vs. semantic dependence; an identifier declared first as a constant and later as a variable, with and without queries in between. non-trivial = hint does not '
+        'classification (every helper of prime.py) vs. semantic dependence; an identifier declared first as a constant and later as a variable, with and without queries in between. non-trivial = hint does not '
         'fill its bitfield / predicate depends on a flexible variable; '
         'distinct = hint / (automaton, predicate, back end)')
 ASSUMPTIONS = ['dd trusted', 'read-out decodes bits independently']
@@ -327,6 +327,41 @@ def run_prime(case, acc):
         if set(got[k]) != sem[k]:
             bad('support_classification_wrong', which=k,
                 got=sorted(got[k]), expected=sorted(sem[k]))
+    # the remaining classification helpers
+    n += 4
+    un, pr = prm.split_support(u, aut)
+    if set(un) != sem['unprimed'] or set(pr) != sem['primed']:
+        bad('split_support_wrong', unprimed=sorted(un), primed=sorted(pr),
+            expected=[sorted(sem['unprimed']), sorted(sem['primed'])])
+    for v in flex + rigid:
+        if prm.is_variable(v, aut) != (v in flex) or \
+                prm.is_constant(v, aut) != (v in rigid):
+            bad('is_variable_or_is_constant_wrong', identifier=v,
+                is_variable=prm.is_variable(v, aut),
+                is_constant=prm.is_constant(v, aut))
+            break
+    other = aut.add_expr(d['vars'][1][0] + " = " + d['vars'][1][0])  # TRUE
+    w = aut.add_expr(PMENU[case['decl']][3])
+    js = prm.joint_support([u, w, other], aut)
+    if set(js) != dep | {v for v in aut.support(w)}:
+        bad('joint_support_wrong', got=sorted(js))
+    for vs in (dep, dep - set(list(dep)[:1]), dep | {'nosuch'}):
+        if prm.support_issubset(u, set(vs), aut) != (dep <= set(vs)):
+            bad('support_issubset_wrong', vars=sorted(vs))
+            break
+    sets_ = [set(sem['rigid']), set(sem['flexible']), set(sem['primed'])]
+    if not prm.pairwise_disjoint(iter(sets_)) or (
+            dep and prm.pairwise_disjoint([dep, set(list(dep)[:1])])):
+        bad('pairwise_disjoint_wrong', sets=[sorted(x) for x in sets_])
+    # an action constrains a player iff its primed support lies within
+    # that player's variables
+    aut.varlist.update(env=flex[:1], sys=flex[1:])
+    for player in ('env', 'sys'):
+        exp_p = {v.rstrip("'") for v in sem['primed']} <= set(
+            aut.varlist[player])
+        if prm.is_action_of_player(u, player, aut) != exp_p:
+            bad('is_action_of_player_wrong', player=player,
+                got=prm.is_action_of_player(u, player, aut))
     n += 1
     exp = {v.rstrip("'") for v in dep if v in flex or v in primed}
     if set(prm.vars_in_support(u, aut)) != exp:
